@@ -88,6 +88,12 @@ def gen(rng, tier):
     n = 4000 if tier == "thorough" else 300
     for _ in range(n):
         cases.append({"kind": "swap", "seed": rng.randrange(10 ** 6)})
+    # levels= handed over as a TUPLE (the documented "list or tuple"): the same order rules
+    for p_ in (("c", "a", "b"), ("b", "a"), ("d", "b", "a", "c"), ("b", "c", "a")):
+        for w in ("C", "T", "S", "C-sum", "CC-sum", "CT-lv"):
+            if w == "CT-lv" and "b" not in p_:
+                continue
+            cases.append({"kind": "levels", "perm": list(p_), "wrapper": w, "seed": rng.randrange(10 ** 6), "tuple": True})
     return cases
 
 
@@ -157,7 +163,7 @@ def _design_case(c):
                 "C-sum": "C(q, Sum, levels=lv)",
                 "CC-sum": "C(C(q, levels=lv), Sum)", "CT-lv": "C(T(q, 'b'), levels=lv)", "CS-lv": "C(S(q, 'a'), levels=lv)",
                 "CC-lv": "C(C(q, Sum), levels=lv)", "CC-ref": "C(C(q, levels=lv), Treatment('b'))"}[w]
-        return f"y ~ {call}", fr, {"lv": c["perm"]}
+        return f"y ~ {call}", fr, {"lv": tuple(c["perm"]) if c.get("tuple") else c["perm"]}
     fr = gen_dm.make_frame(rng, factorial=True, cats=["f", "g"], nlev={"f": rng.choice([2, 3, 4]), "g": rng.choice([2, 3])})
     return _swap_formula(rng, 0), fr, {}
 
